@@ -340,3 +340,13 @@ text("c14-await-between-timing", "C14", V3, "        snmp_version = 3\n        m
 text("c14-lazy-init-await", "C14", V3, "        security_model_id = 3\n        if self.security_model is None:\n            self.security_model = create_sm(security_model_id)\n\n        # We need", "        security_model_id = 3\n        if self.security_model is None:\n            await asyncio_sleep0()\n            self.security_model = create_sm(security_model_id)\n\n        # We need")
 text("c14-class-level-future", "C14", "puresnmp/transport.py", "    def __init__(self, packet: bytes) -> None:\n        loop = asyncio.get_running_loop()\n        self.packet = packet", "    replies = []\n\n    def __init__(self, packet: bytes) -> None:\n        loop = asyncio.get_running_loop()\n        self.packet = packet")
 text("c14-s-local-counter", "C14", RAW, "        output = []\n        for oid, value in response_object.value.varbinds:", "        output = []\n        seen_markers = []\n        for oid, value in response_object.value.varbinds:", expect="silent")
+
+# ---------------------------------------------------------------- C20
+text("c20-x690-definite-no-advance", "C20", "x690/util.py", "        end = index + 1 + offset + length\n        nex_index = end", "        end = index + 1 + offset + length\n        nex_index = end - offset - 1 - length")
+text("c20-x690-decode-returns-start", "C20", "x690/types.py", "    return output, next_tlv  # type: ignore", "    return output, start_index  # type: ignore")
+text("c20-x690-signed-length", "C20", "x690/util.py", "        value_octets = data[index + 1 : index + num_octets + 1]\n        output = int.from_bytes(value_octets, \"big\")", "        value_octets = data[index + 1 : index + num_octets + 1]\n        output = int.from_bytes(value_octets, \"big\", signed=True)")
+text("c20-spin-on-marker", "C20", PDU, "        varbinds = []\n        for oid, value in values:  # type: ignore", "        varbinds = []\n        pending = len(values)\n        while pending:\n            pending = len(values)\n        for oid, value in values:  # type: ignore")
+text("c20-range-error-index", "C20", PDU, "            offending_oid = None\n", "            offending_oid = None\n            padding = [None for _ in range(error_index.value)]\n")
+text("c20-alloc-from-max-size", "C20", ADT, "        msg_id = cast(Integer, header[0])\n", "        msg_id = cast(Integer, header[0])\n        scratch = bytearray(header[1].value)\n")
+text("c20-decode-remembers-message", "C20", V3, "        message = Message.decode(whole_msg)\n", "        message = Message.decode(whole_msg)\n        self.last_message = message\n")
+text("c20-s-for-loop", "C20", PDU, "        varbinds = []\n        for oid, value in values:  # type: ignore", "        varbinds = []\n        count = 0\n        for oid, value in values:  # type: ignore", expect="silent")
